@@ -70,7 +70,7 @@ static char *tostr_buf;                     /* 4096-byte heap block */
 /* CBMODE 1: the user callback itself uses the API on the parser it is called for - it asks for the current name at every
  * token, which raises BINSON_ERROR_STATE where there is none (inside arrays, before the first field). An error raised
  * this way in the middle of a call is an error like any other: it must still be set when the call returns (C09). */
-static int CBMODE;
+static int CBMODE;      /* declared before describe_case() uses it */
 static int cb_raised;
 static int user_ctx;      /* what the application hands to its callback */
 static void count_cb(binson_parser *p, uint16_t ns, void *ctx)
@@ -78,6 +78,14 @@ static void count_cb(binson_parser *p, uint16_t ns, void *ctx)
     (void) ns; (void) ctx;
     cb_count++;
     if (p->buffer_used > cb_maxused) cb_maxused = p->buffer_used;
+    if (CBMODE == 4) {
+        /* re-entrant rendering: a stateless application callback asks for the size of the text of the SAME parser at every token it is
+         * called for (to_string rewinds the parser and takes the callback slot). Whatever that does to the traversal in progress, every
+         * call must still return (C16); nothing else is checked in this mode */
+        size_t z = 0;
+        (void) binson_parser_to_string(p, NULL, &z, false);
+        return;
+    }
     if (CBMODE && cb_count == (uint64_t) CBMODE) {     /* at exactly ONE token of the call (the CBMODE-th): a later callback must not re-raise what the library may have lost */
         binson_err before = p->error_flags;
         (void) binson_parser_get_name(p);
@@ -107,7 +115,7 @@ static int history_of(size_t s, uint8_t *out, int cap)
 }
 static void describe_case(vf_str *o, const uint8_t *hist, int nh, int failing)
 {
-    vf_str_printf(o, "kind: parser\ninit: %s\nmax_depth: %d\nfill: %d\ninput_hex: ", KIND0 == VK_OBJ ? "object" : "array", MD, FILL);
+    vf_str_printf(o, "kind: parser\ninit: %s\nmax_depth: %d\nfill: %d\ncallback_mode: %d\ninput_hex: ", KIND0 == VK_OBJ ? "object" : "array", MD, FILL, CBMODE);
     if (INLEN <= 200000) vf_str_hex(o, IN, INLEN); else { vf_str_hex(o, IN, 64); vf_str_printf(o, "...(%zu bytes, see input_label)", INLEN); }
     vf_str_printf(o, "\ninput_label: %s\ninput_len: %zu\nops:", INLABEL ? INLABEL : "", INLEN);
     for (int i = 0; i < nh; i++) vf_str_printf(o, " %d", hist[i]);
@@ -334,6 +342,14 @@ static bool do_op(shadow *sh, int op, mismatch *mm, bool counting)
     default: vf_die("bad op");
     }
     (void) retptr_null;
+    if (CBMODE == 4) {
+        /* re-entrant rendering mode: the call returned - that is all C16 asks here. What the application may still assume about its
+         * position is nothing. */
+        int8_t k = sh->kind;
+        memset(sh, 0, sizeof *sh); sh->kind = k; sh->unknown = 1;
+        mm->prop = NULL;
+        return true;
+    }
     binson_err e1 = p->error_flags;
     /* the parser object must not be left holding a pointer into a stack frame that no longer exists (the library's own
      * callback context lives on its stack during to_string / print): the next call would run on dead memory */
@@ -418,6 +434,15 @@ static bool do_op(shadow *sh, int op, mismatch *mm, bool counting)
                 if (P_C16) return false;
             }
         }
+    }
+    /* ---------------- C09: to_string / print on a document that verify rejects run into that error themselves; when they return, the
+     * error indicator must (still) be set - their false return alone says nothing (a size query on a valid document returns false too) */
+    if (is_verifylike(op) && !CBMODE && FR_init[kind0].ret && !FR_verify[kind0].ret && e1 == BINSON_ERROR_NONE) {
+        snprintf(mm->why, sizeof mm->why, "%s on a document that verify rejects (%s) returned %d and left error_flags NONE: the failure cannot be seen by a check after the call",
+                 opname[op], vf_err_name(FR_verify_err[kind0]), ret);
+        snprintf(mm->sig, sizeof mm->sig, "latch:render-clears-error:%s", opname[op]);
+        mm->prop = "C09";
+        if (P_C09) return false;
     }
     /* ---------------- C12: init / reset / verify give a clean start (not compared while the error-raising callback is installed:
      * it changes what verify sees, by design) */
@@ -533,8 +558,9 @@ static int run_history(const uint8_t *h, int n, mismatch *mm)
 }
 
 /* op < 0: the state right after the first init fails */
-static void report(size_t from, int op, const mismatch *mm)
+static void report(size_t from, int op, const mismatch *mm_in)
 {
+    mismatch mm_copy = *mm_in, *mm = &mm_copy;
     static uint8_t h[8200];
     int n = history_of(from, h, 8192);
     if (op >= 0) h[n] = (uint8_t) op;
@@ -709,6 +735,13 @@ static void process_input(const uint8_t *b, size_t n, const char *label)
             explore_config();
         }
         CBMODE = 0;
+        if (P_C16) {
+            /* ... and with a callback that renders the same parser at every token (termination only) */
+            CBMODE = 4; KIND0 = VK_OBJ; MD = 2; FILL = 0;
+            vf_count(CT_CBMODE_CONFIGS, 1);
+            explore_config();
+            CBMODE = 0;
+        }
     }
 }
 
@@ -1100,6 +1133,7 @@ static void replay_main(void)
     if (n < 0) vf_die("bad input_hex");
     input_serial++;
     IN = bytes; INLEN = (size_t) n; INLABEL = "replay"; KIND0 = !strcmp(init, "object") ? VK_OBJ : VK_ARR; MD = atoi(md); FILL = atoi(fill);
+    { char *cm = vf_replay_get(t, "callback_mode"); CBMODE = cm ? atoi(cm) : 0; }
     if (MD > VF_MAXDEPTH_SNAP) vf_die("tower replays run the scripted history only inside the exploring check");
     uint8_t h[8192];
     int nh = 0;
